@@ -31,7 +31,7 @@ static struct iv_state		v_state;
 static struct iv_signal		v_is[NI];
 static struct iv_signal_thr_info v_tinfo;
 static unsigned long		g_mask;		/* ghost signal mask (word 0) */
-static int	g_lock_held, g_lock_acq, g_lock_with_unblocked;
+static int	g_lock_held, g_lock_acq, g_lock_with_unblocked, g_in_postfork;
 static int	g_raw_reg, g_raw_unreg, g_raw_posts, g_posted[NI];
 static int	g_sigactions, g_sa_sig, g_sa_flags; static void (*g_sa_handler)(int); static unsigned long g_sa_mask;
 static int	g_ins, g_del; static struct iv_avl_tree *g_ins_tree, *g_del_tree; static struct iv_avl_node *g_ins_node, *g_del_node;
@@ -79,6 +79,8 @@ int STUB(pthread_spin_trylock)(pthread_spinlock_t *l) { return 0; }
 int STUB(sigaction)(int sig, const struct sigaction *sa, struct sigaction *old)
 {
 	g_sigactions++; g_sa_sig = sig; g_sa_handler = sa->sa_handler; g_sa_flags = sa->sa_flags; g_sa_mask = sa->sa_mask.__val[0];
+	if (!g_in_postfork)
+		__CPROVER_assert(g_lock_held, "[C10,C14] the disposition of a signal is changed in the same critical section that counts its interests: a registration made by another thread in between would see a non-zero count and install nothing");
 	return 0;
 }
 int iv_event_raw_register(struct iv_event_raw *this) { g_raw_reg++; return 0; }
@@ -278,7 +280,9 @@ void h_postfork(void)
 	total_num_interests[sn] = 3;
 	process_sigs.root = &v_is[0].an;
 	v_tinfo.thr_sigs.root = &v_is[1].an;
+	g_in_postfork = 1;
 	iv_signal_child_reset_postfork();
+	g_in_postfork = 0;
 	__CPROVER_assert(g_sigactions == 1 && g_sa_sig == sn && g_sa_handler == SIG_DFL, "[C10] in a forked child every signal that had interests gets its default disposition back, and only those");
 	__CPROVER_assert(total_num_interests[sn] == 0 && total_num_interests[other] == 0, "[C10] no interest is inherited");
 	__CPROVER_assert(sig_owner_pid == 0 && process_sigs.root == NULL && IMPLIES(verif_in.tinfo_present, v_tinfo.thr_sigs.root == NULL), "[C10] both interest sets are emptied");
